@@ -394,14 +394,19 @@ impl Rasn {
             FormattedMembers::default(),
             |mut acc, (i, m)| {
                 let nested = if Self::needs_unnesting(&m.ty) {
-                    Some(self.generate_type(ToplevelTypeDefinition {
+                    let nested_tld = ToplevelTypeDefinition {
                         parameterization: None,
                         comments: INNER_TYPE_COMMENT.into(),
                         name: self.inner_name(&m.name, parent_name).to_string(),
                         ty: m.ty.clone(),
                         tag: None,
                         module_header: None,
-                    }))
+                    };
+                    if m.name.starts_with(INTERNAL_EXTENSION_GROUP_NAME_PREFIX) {
+                        Some(self.generate_extension_addition_group(nested_tld))
+                    } else {
+                        Some(self.generate_type(nested_tld))
+                    }
                     .transpose()
                 } else {
                     Ok(None)
